@@ -5,6 +5,7 @@ import (
 	"fmt"
 	mrand "math/rand/v2"
 	"net/netip"
+	"slices"
 	"sort"
 	"strings"
 	"sync/atomic"
@@ -248,6 +249,10 @@ type seqHist struct {
 	failedBefore bool
 	hint         string              // name to look up next
 	rcodes       map[dohfake.Key]int // response codes forced on (name, qtype; type 0 = every qtype) while an episode lasts
+	// the order in which THIS implementation looks the three keys up, learned from the first call that asked upstream
+	// for all three (nil until then); orderUnstable: a later call contradicted it, nothing is inferred from it any more
+	lookupOrder   []int
+	orderUnstable bool
 }
 
 func (h *seqHist) payload() map[string]any {
@@ -702,22 +707,99 @@ func (h *seqHist) resolve(op *seqOp) (stop bool) {
 		return true
 	}
 
-	// ---- model walk: HTTPS, A, AAAA in the order Resolve looks them up ----
+	// ---- model walk: the three keys, in the order in which Resolve asked upstream for them (whatever that order
+	// is: the statement does not fix it), then the keys it did not ask for ----
 	now := h.clock.Secs()
-	if op.JumpAt > 0 && arrivals.Load() >= int64(op.JumpAt) {
+	jumped := op.JumpAt > 0 && arrivals.Load() >= int64(op.JumpAt)
+	if jumped {
 		now -= op.D // the step happened during this call
 		h.counts["seq_clock_steps_during_query"]++
 		h.classes["clock-step-during-query"] = true
 	}
+	now0, now1 := now, now // before and after the step (equal when there was none)
+	if jumped {
+		now1 = now0 + op.D
+	}
+	var pos [3]int // 1-based arrival position of the first query for each key among the queries of this call; 0 = none
+	{
+		qs := srv.Log()
+		sort.SliceStable(qs, func(i, j int) bool { return qs[i].Seq < qs[j].Seq })
+		idx := 0
+		for _, q := range qs {
+			if q.Name != op.Name {
+				continue
+			}
+			idx++
+			for k := range qtypes {
+				if q.Type == qtypes[k] && pos[k] == 0 {
+					pos[k] = idx
+				}
+			}
+		}
+	}
+	order := []int{0, 1, 2}
+	sort.SliceStable(order, func(i, j int) bool {
+		a, b := pos[order[i]], pos[order[j]]
+		switch {
+		case a > 0 && b > 0:
+			return a < b
+		case a > 0:
+			return true
+		}
+		return false
+	})
 	zone := h.specs[h.ver]
 	_, endNow := zone.chain(op.Name)
 	ents := h.entries[op.Name]
 	var want [3]int // version each key must show; verBad = unknown
 	var expect []string
 	expectErr, afterFail, sent, allCached, failedBy, failedRc := false, false, 0, true, "", 0
-	for k := 0; k < 3; k++ {
+	// learn / confirm the lookup order from what was asked upstream in this call
+	var asked []int
+	for _, k := range order {
+		if pos[k] > 0 {
+			asked = append(asked, k)
+		}
+	}
+	rank := func(k int) int { return slices.Index(h.lookupOrder, k) }
+	if h.lookupOrder == nil && len(asked) == 3 {
+		h.lookupOrder = asked
+	} else if h.lookupOrder != nil {
+		for i := 1; i < len(asked); i++ {
+			if rank(asked[i-1]) > rank(asked[i]) {
+				h.orderUnstable = true
+			}
+		}
+	}
+	trigger := -1 // the key whose (first) query made the clock step
+	for k := range pos {
+		if jumped && pos[k] == op.JumpAt {
+			trigger = k
+		}
+	}
+	gaveUp := false // a lookup failed and Resolve reported it: what it did not ask for afterwards is not judged
+	for _, k := range order {
 		en := &ents[k]
+		if gaveUp && n[k] == 0 {
+			continue
+		}
+		// the moment at which Resolve looked into its cache for this key: just before its own query if it sent one
+		// (a query that arrived after the step was preceded by a look after the step); unknown for a key it did not
+		// ask for when the clock stepped during the call - then either answer of the model is accepted where the two
+		// moments disagree
+		now = now0
+		if jumped && pos[k] > op.JumpAt {
+			now = now1
+		}
+		if jumped && pos[k] == 0 && h.lookupOrder != nil && !h.orderUnstable && trigger >= 0 && rank(k) > rank(trigger) {
+			now = now1 // this implementation looks this key up after the one whose query made the clock step
+		}
 		class, reason := h.decide(en, now)
+		if jumped && pos[k] == 0 && (h.lookupOrder == nil || h.orderUnstable || trigger < 0) {
+			if c1, _ := h.decide(en, now1); c1 != class {
+				class, reason = lenient, "looked-up-before-or-after-the-clock-step"
+			}
+		}
 		expect = append(expect, fmt.Sprintf("%s:%s(%s)", qnames[k], class, reason))
 		h.classes[class+"/"+reason] = true
 		h.counts["seq_lookups"]++
@@ -821,8 +903,8 @@ func (h *seqHist) resolve(op *seqOp) (stop bool) {
 		}
 		allCached = false
 		sent++
-		if sent == op.JumpAt {
-			now += op.D
+		if jumped && pos[k] >= op.JumpAt {
+			now = now1 // the answer to the query that triggered the step, and to every later one, was produced after it
 		}
 		if rc := h.forcedRcode(zone, op.Name, k); h.fail != dohfake.FailNone || rc != 0 {
 			by := failNames[h.fail]
@@ -839,16 +921,16 @@ func (h *seqHist) resolve(op *seqOp) (stop bool) {
 			h.failedBefore = true
 			want[k] = verBad
 			if err != nil {
-				break // Resolve gave up here, as it must
+				gaveUp = true // Resolve reports the failure, as it must; it may still have asked for other keys
 			}
-			continue // it went on (a violation, recorded below): keep the model in step for the remaining keys
+			continue // keep the model in step for the remaining keys
 		}
 		if en.Why == "after-failure" && strings.HasPrefix(en.FailedBy, "rcode") {
 			h.counts["seq_refetched_after_rcode_failure"]++
 		}
 		all, own, cn, ex, neg, end := zone.response(op.Name, k)
 		*en = entry{Has: true, Ver: h.ver, At: now, TTLs: all, Own: own, CN: cn, Ex: ex, Neg: neg, End: end, Empty: len(own) == 0, Certain: h.size >= 16,
-			Jumped: op.JumpAt > 0 && sent >= op.JumpAt}
+			Jumped: jumped && pos[k] >= op.JumpAt}
 		want[k] = h.ver
 		if en.Empty {
 			want[k] = verEmpty
